@@ -17,7 +17,7 @@ from labtech.types import ResultMeta, TaskResult
 
 from . import universe as U
 
-PLACEMENTS = ('direct', 'list', 'tid', 'dil', 'mixed')
+PLACEMENTS = ('direct', 'list', 'tid', 'dil', 'mixed', 'pair', 'nonefirst')
 STR_SALT = bool(os.environ.get('VERIF_STR_SALT'))
 
 
@@ -94,6 +94,10 @@ def place_deps(place: str, deps: list) -> dict:
         if rest:
             kw['coll'] = [[rest[0]], {'y': {'z': list(rest[1:])}}]
         return kw
+    if place == 'pair':    # heterogeneous sequences that start with a scalar: (weight, task) pairs
+        return {'coll': [(0.5 + i, d) for i, d in enumerate(deps)]}
+    if place == 'nonefirst':   # a list whose first element is a scalar, and a dict of ('label', task) tuples
+        return {'d0': [None] + list(deps[:1]), **({'coll': {'m': ('label', tuple(deps[1:]))}} if deps[1:] else {})}
     raise ValueError(place)
 
 
